@@ -96,6 +96,27 @@ int main(int argc, char** argv)
                 });
     };
     auto rep = sh.run();
+    int deep = 0;
+    if (a.thorough() && !a.asan())
+    {
+        // one token deeper for the unlimited declarations (greedy off / on)
+        deep = n + 1;
+        auto sh2 = sharded(a, "C12deep");
+        sh2.prop = "C12";
+        sh2.walk = [&](mc::Ctx& ctx) {
+            for (auto& D : decls)
+                if (D.accepted == UNLIMITED || D.accepted == 2)
+                    for_all_vectors(alpha, deep, ctx, [&](const std::vector<std::string>& av) {
+                        long idx = ctx.next;
+                        ctx.each([&] { return chk.describe(D, av, {}); },
+                                 [&](mc::Report& rep) { chk.run_case(D, av, {}, rep, idx); });
+                    }, deep);
+        };
+        auto rep2 = sh2.run();
+        rep2.counters.erase("wall_ms");
+        rep.merge(rep2);
+    }
+    rep.counters["bound_argv_len_deep_on_4_declarations"] = deep;
     rep.counters["bound_argv_len"] = n;
     rep.counters["declarations"] = decls.size();
     rep.counters["alphabet_tokens"] = alpha.size();
